@@ -94,6 +94,7 @@ def source_tie(pid):
         if n in seen: continue
         seen.add(n)
         for c in rep["translated"].get(n, {}).get("calls", []):
+            c = c.replace("::parse", "_parse")
             if c in allf and c not in seen: todo.append(c)
     broken = []
     for d in rep.get("deviations", []):
@@ -109,8 +110,11 @@ def source_tie(pid):
     if src_names and os.path.exists(os.path.join(COQ, srcf)) and not failing:
         ok5, _ = coq_make([os.path.join("Properties", pid + ".vo")])
         # (cached: the key covers the generated file and the compiled files it is checked against)
-        key = hashlib.sha1((open(os.path.join(COQ, srcf)).read() + "|%r|%r" % (
-            os.path.getmtime(os.path.join(COQ, "gen", "SrcTie.vo")), os.path.getmtime(os.path.join(COQ, "Properties", pid + ".vo")))).encode()).hexdigest()
+        h = hashlib.sha1()
+        for vf in sorted(glob.glob(os.path.join(COQ, "**", "*.v"), recursive=True)):
+            if os.path.basename(vf).endswith("_src.v") and os.path.basename(vf) != pid + "_src.v": continue
+            h.update(vf.encode()); h.update(open(vf, "rb").read())
+        key = h.hexdigest()
         cfile = os.path.join(CACHE, "srcthm-%s.json" % pid)
         cached = json.load(open(cfile)) if os.path.exists(cfile) else {}
         if cached.get("key") == key and cached.get("rc") == 0: rc5, out5 = 0, cached["out"]
